@@ -14,3 +14,5 @@ ASSUMPTIONS = ["futures::mpsc, crossbeam_channel, VecDeque are FIFO", "a moved R
 OBLIGATIONS = [K.HANDOVER, K.QUEUES, K.FORBIDDEN, K.SOURCE_SIBS, K.WRITER_SIBS, K.OPTION_TAINT, K.WRITE_DATA, K.STAGING_TYPES, K.MAILBOX, K.WRITER_LAYOUT[4]]
 OBLIGATIONS = OBLIGATIONS + [K.WITNESSES]
 OBLIGATIONS = OBLIGATIONS + [K.STREAM_SIBS]
+# in-memory vs temp-file staging and early vs late hand-over give the same bytes only if every staging arm transfers all staged bytes (seed C11b)
+OBLIGATIONS = OBLIGATIONS + [K.WRITER_UPDATE, K.CONSUMER]
